@@ -325,11 +325,32 @@ def domain_for(sort):
     return UNSIGNED_DOMAIN
 
 
-def models(atom_sorts, invariants=(), limit=400000):
+def constants_in(t, acc):
+    if not isinstance(t, tuple):
+        return acc
+    if t[0] == "c":
+        acc.add(t[1])
+    elif t[0] not in ("v", "unk"):
+        for x in t[1:]:
+            if isinstance(x, tuple):
+                constants_in(x, acc)
+    return acc
+
+
+def models(atom_sorts, invariants=(), limit=400000, constants=()):
     """Enumerate all assignments of the atoms over their finite domains that satisfy the invariants
-    (terms that must not evaluate to False)."""
+    (terms that must not evaluate to False). Constants occurring in the predicates extend the domains (c-1, c, c+1)."""
     names = sorted(atom_sorts)
-    doms = [domain_for(atom_sorts[n]) for n in names]
+    extra = set()
+    for k in constants:
+        if 6 < k < S63 - 2:
+            extra.update((k - 1, k, k + 1))
+    doms = []
+    for n in names:
+        d = list(domain_for(atom_sorts[n]))
+        if extra and atom_sorts[n] in ("u", "s", "st", "?"):
+            d = sorted(set(d) | set(list(sorted(extra))[:9]))
+        doms.append(d)
     total = 1
     for d in doms:
         total *= len(d)
@@ -669,6 +690,10 @@ def call_term(e, ctx):
     if n is None:
         return unk(e)
     if kind == "member":
+        if n in ("length", "strlen") and len(args) == 1 and astx.is_this(recv):
+            so = ctx.obj(args[0])
+            if so is not None:
+                return var("strlen(%s)" % so, "u")
         o = ctx.obj(recv)
         if len(args) == 0 and o is not None:
             if n in BEGIN_NAMES:
